@@ -216,4 +216,4 @@ def subchecks(tier):
     q = tier == "quick"
     return [Sub("evolution", case_strategy(), test_case, 9 if q else 400,
                 generic=generic_cases(), shards=8 if q else 16, max_rounds=2,
-                shrink_quick=False)]
+                shrink_quick=False, pregenerate=True)]
